@@ -23,6 +23,7 @@ case "$id" in
   C20) pkg=h_loom; bin=h_loom; pre="driver" ;;
   *)   pkg=vh; bin="$(echo "$id" | tr 'A-Z' 'a-z')"; pre="" ;;
 esac
+touch "$tmp/harness/$pkg/src/bin/$bin.rs" 2>/dev/null; touch "$tmp/harness/$pkg/src/main.rs" 2>/dev/null  # a copy made while an older build was still running can look fresh to cargo (mtime race)
 if ! cargo build --release --offline -p "$pkg" --bin "$bin" >"$tmp/build.log" 2>&1; then
   echo "MACHINERY-FAILURE: build failed"; tail -40 "$tmp/build.log"; exit 2
 fi
